@@ -192,6 +192,9 @@ class Obj(Val):
         self.cls = cls
         self.fields = dict(fields or {})
         self.tag = tag
+        # built by a contract with only the fields it describes (True) or by running the real __init__ (False): a missing attribute
+        # of a partial object means "the contract does not describe what the code now uses" (undecided), not AttributeError
+        self.partial = True
 
     def __repr__(self):
         return f"Obj<{getattr(self.cls, 'name', self.cls)}>"
